@@ -454,6 +454,9 @@ func oracleC12(f *sessionFam, w *World, res *Result) []Violation {
 		onlyApp := len(armed) == 1 && armed["forced close"]
 		if onlyApp && ce.S != "forced close" {
 			l.add("reason-forced-close", ce.S+"/"+tr, fmt.Sprintf("%s [%s]: graceful close ended with reason %q", a, ctx, ce.S))
+		} else if !onlyApp && ce.S != "forced close" && !armed[ce.S] {
+			// other causes were around (a silent client arms the heartbeat), but not the one reported
+			l.add("reason-forced-close", ce.S+"/"+tr, fmt.Sprintf("%s [%s]: graceful close ended with reason %q although the causes present were only %v", a, ctx, ce.S, sortedKeys(armed)))
 		}
 		// buffered packets first: every message created before the close call reaches a client that keeps reading
 		clientOK := sp.StopAtMs == 0 && sp.CloseAtMs == 0 && len(sp.Faults) == 0 && len(sp.Cand) == 0
